@@ -10,63 +10,19 @@ theorem rel_unmarked (p : Parser) (A : Abs) (h : Rel p A) (hp : A.sc.pend = fals
   | false => rfl
   | true => have := h.mark.1 hx; rw [hp] at this; cases this
 
-/-- `esccpy` into what is left of the stash: all of it or nothing -/
-theorem esccpy_cases (six : Nat) (src : List Byte) (h : six < stashSize) :
-    (six + (unesc src).length < stashSize ∧ (esccpy (stashSize - six) src).1 = some (unesc src)) ∨
-    (stashSize ≤ six + (unesc src).length ∧ (esccpy (stashSize - six) src).1 = none) := by
-  by_cases hf : six + (unesc src).length < stashSize
-  · left; refine ⟨hf, ?_⟩
-    rw [esccpy_eq _ _ (by omega)]
-  · right; refine ⟨by omega, ?_⟩
-    rw [esccpy_none _ _ (by omega) (by omega)]
-
-/-- the rest of the buffer copied: skip and stash follow the unfolded line -/
+/-- the rest of the buffer copied: the stash follows the unfolded line, `skip` stays off -/
 theorem copyRest_spec (p : Parser) (A : Abs) (h : Rel p A) :
-    ((A.cur ++ unesc (rest p)).length < stashSize →
-      (copyRest p).skip = false ∧ (copyRest p).stash = A.cur ++ unesc (rest p)) ∧
-    (stashSize ≤ (A.cur ++ unesc (rest p)).length → (copyRest p).skip = true ∧ (copyRest p).stash = []) := by
-  rw [List.length_append]
-  by_cases hfit : A.cur.length < stashSize
-  · obtain ⟨hk, hs⟩ := h.fits hfit
-    unfold copyRest
-    rw [if_neg (by rw [hk]; simp)]
-    have hc := esccpy_cases p.stash.length (rest p) (by rw [hs]; exact hfit)
-    unfold rest at hc ⊢
-    rw [hs] at hc ⊢
-    rcases hc with ⟨h1, h2⟩ | ⟨h1, h2⟩
-    · rw [h2]
-      exact ⟨fun _ => ⟨hk, rfl⟩, fun hx => by omega⟩
-    · rw [h2]
-      exact ⟨fun hx => by omega, fun _ => ⟨rfl, rfl⟩⟩
-  · have hover : stashSize ≤ A.cur.length := by omega
-    obtain ⟨hk, hs⟩ := h.over hover
-    unfold copyRest
-    rw [if_pos hk]
-    exact ⟨fun hx => by omega, fun _ => ⟨hk, hs⟩⟩
+    (copyRest p).skip = false ∧ (copyRest p).stash = A.cur ++ unesc (rest p) := by
+  unfold copyRest
+  rw [if_neg (by rw [h.skip]; simp), esccpy_fits', h.stash]
+  exact ⟨h.skip, rfl⟩
 
-/-- a complete line copied: skip and stash follow the unfolded line (the stash is cleared at `proc:`) -/
+/-- a complete line copied: the stash follows the unfolded line (it is cleared at `proc:`) -/
 theorem takeLine_spec (p : Parser) (A : Abs) (h : Rel p A) (e : Nat) :
-    ((A.cur ++ unesc ((rest p).take e)).length < stashSize →
-      (takeLine p e).skip = false ∧ (takeLine p e).stash = A.cur ++ unesc ((rest p).take e)) ∧
-    (stashSize ≤ (A.cur ++ unesc ((rest p).take e)).length → (takeLine p e).skip = true) := by
-  rw [List.length_append]
-  by_cases hfit : A.cur.length < stashSize
-  · obtain ⟨hk, hs⟩ := h.fits hfit
-    unfold takeLine
-    rw [if_neg (by rw [hk]; simp)]
-    have hc := esccpy_cases p.stash.length ((rest p).take e) (by rw [hs]; exact hfit)
-    unfold rest at hc ⊢
-    rw [hs] at hc ⊢
-    rcases hc with ⟨h1, h2⟩ | ⟨h1, h2⟩
-    · rw [h2]
-      exact ⟨fun _ => ⟨hk, rfl⟩, fun hx => by omega⟩
-    · rw [h2]
-      exact ⟨fun hx => by omega, fun _ => rfl⟩
-  · have hover : stashSize ≤ A.cur.length := by omega
-    obtain ⟨hk, hs⟩ := h.over hover
-    unfold takeLine
-    rw [if_pos hk]
-    exact ⟨fun hx => by omega, fun _ => hk⟩
+    (takeLine p e).skip = false ∧ (takeLine p e).stash = A.cur ++ unesc ((rest p).take e) := by
+  unfold takeLine
+  rw [if_neg (by rw [h.skip]; simp), esccpy_fits', h.stash]
+  exact ⟨h.skip, rfl⟩
 
 /-- what is known of a parser that reported `need more data`, and of its automaton state: the buffer is used
 up (`BI = p->bsz` in the stash branch), so the pre-examination of a marked stash reads 0 behind it -/
@@ -75,7 +31,7 @@ structure Post (p : Parser) (A : Abs) : Prop where
   done : rest p = []
   inv : Inv A
 
-/-- the rest of the buffer is a piece of one line: it is stashed, or found not to fit -/
+/-- the rest of the buffer is a piece of one line: it is stashed -/
 theorem stash_spec (p : Parser) (A : Abs) (h : Pre p A) (hp : A.sc.pend = false) (b : Bool)
     (hl : lineEnd (rest p) = some b) :
     Post (stashRest p b).1 (runA A (rest p)) ∧ (runA A (rest p)).ins = A.ins := by
